@@ -721,6 +721,505 @@ fn inject_case(c: &Case, out: &mut dyn Write) -> Vec<String> {
     fails
 }
 
+
+// ------------------------------------------------------------------------------------------
+// stream `lowpan`: two real interfaces on Medium::Ieee802154 (QDev), the same scenario on Medium::Ip
+// gives the reference IPv6 datagrams.
+//
+//   case <id> s=e2e lla=<LL> llb=<LL> xa=<hex16|-> xb=<hex16|-> dst=<ll|x> ident=<u16> mtu=<n>
+//        (both nodes own the link-local address derived from their link-layer address; xa/xb = a second
+//         address (same /64 => on-link, else reached through a default route via the peer))
+//   udp sp=<u16> dp=<u16> hl=<u8> len=<n> pat=<u8> sched=<S> ref=<hex>        one UDP datagram A -> B
+//   burst k=<n> sp= dp= hl= len=<n> pat= ref=<hex>,<hex>..                     k UDP datagrams queued at once
+//   echo seq=<u16> hl=<u8> len=<n> pat=<u8> sched=<S> ref=<hex> rref=<hex>     echo request A -> B, reply B -> A
+//   wait ms=<n>
+//   S = io | rev | rot:<k> | dup:<k> | drop:<k> | swap:<i>:<j>     (order in which the frames reach B)
+// Observation (both sides):
+//   dg <ab|ba> n=<frames>
+//   f <maclen> plain <hex> | f <maclen> first <size> <tagrel> <hex> | f <maclen> next <size> <tagrel> <off> <hex>
+//   rx <ab|ba> <hex of the IPv6 datagram delivered at the receiver (raw socket)>   /  rx <dir> -
+// ------------------------------------------------------------------------------------------
+
+#[derive(Clone)]
+struct E2eCfg {
+    lla: Ieee802154Address,
+    llb: Ieee802154Address,
+    xa: Option<Ipv6Address>,
+    xb: Option<Ipv6Address>,
+    dst_x: bool,
+    ident: u16,
+    mtu: usize,
+}
+
+fn e2e_cfg(c: &Case) -> E2eCfg {
+    let x = |k: &str| match c.get(k).unwrap_or("-") {
+        "-" => None,
+        h => Some(addr16(h)),
+    };
+    E2eCfg {
+        lla: ll_parse(c.get("lla").unwrap()).unwrap(),
+        llb: ll_parse(c.get("llb").unwrap()).unwrap(),
+        xa: x("xa"),
+        xb: x("xb"),
+        dst_x: c.get("dst") == Some("x"),
+        ident: c.get_i("ident", 0x1234) as u16,
+        mtu: c.get_i("mtu", 127) as usize,
+    }
+}
+
+struct Pair {
+    a: Node,
+    b: Node,
+    dst_b: Ipv6Address,
+    tag0: [Option<u16>; 2],
+}
+
+fn same_prefix64(a: &Ipv6Address, b: &Ipv6Address) -> bool {
+    a.octets()[..8] == b.octets()[..8]
+}
+
+fn mk_pair(medium: Medium, cfg: &E2eCfg) -> Pair {
+    let (la, lb) = (ll_link_local(&cfg.lla), ll_link_local(&cfg.llb));
+    let mut ia = vec![la];
+    let mut ib = vec![lb];
+    if let Some(x) = cfg.xa {
+        ia.push(x);
+    }
+    if let Some(x) = cfg.xb {
+        ib.push(x);
+    }
+    let need_gw = match (cfg.xa, cfg.xb) {
+        (Some(x), Some(y)) => !same_prefix64(&x, &y),
+        _ => cfg.xa.is_some() != cfg.xb.is_some(),
+    };
+    let mtu = if medium == Medium::Ip { 4000 } else { cfg.mtu };
+    let mut a = mk_node(medium, Some(cfg.lla), &ia, if need_gw { Some(lb) } else { None }, mtu, 0x1111);
+    let mut b = mk_node(medium, Some(cfg.llb), &ib, if need_gw { Some(la) } else { None }, mtu, 0x2222);
+    a.sockets.get_mut::<icmp::Socket>(a.h_icmp).bind(icmp::Endpoint::Ident(cfg.ident)).unwrap();
+    b.sockets.get_mut::<icmp::Socket>(b.h_icmp).bind(icmp::Endpoint::Ident(cfg.ident ^ 0xffff)).unwrap();
+    let dst_b = if cfg.dst_x { cfg.xb.unwrap_or(lb) } else { lb };
+    Pair { a, b, dst_b, tag0: [None, None] }
+}
+
+/// poll until the node stops transmitting; Err = `poll` panicked
+fn pump(n: &mut Node) -> std::result::Result<Vec<Vec<u8>>, ()> {
+    let mut out = vec![];
+    for _ in 0..200 {
+        n.poll()?;
+        let f = n.dev.drain_tx();
+        if f.is_empty() {
+            break;
+        }
+        out.extend(f);
+    }
+    Ok(out)
+}
+
+/// exchange frames in both directions until quiet (used for the neighbor-discovery warm-up)
+fn settle(p: &mut Pair) -> std::result::Result<(), ()> {
+    for _ in 0..20 {
+        let fa = pump(&mut p.a)?;
+        if std::env::var("TRACE").is_ok() {
+            for f in &fa {
+                eprintln!("A> {}", hex(f));
+            }
+        }
+        let quiet_a = fa.is_empty();
+        p.b.dev.rx.extend(fa);
+        let fb = pump(&mut p.b)?;
+        if std::env::var("TRACE").is_ok() {
+            for f in &fb {
+                eprintln!("B> {}", hex(f));
+            }
+        }
+        let quiet_b = fb.is_empty();
+        p.a.dev.rx.extend(fb);
+        if quiet_a && quiet_b {
+            break;
+        }
+    }
+    Ok(())
+}
+
+fn pattern(pat: u8, len: usize) -> Vec<u8> {
+    (0..len).map(|i| (i as u32).wrapping_mul(pat as u32 | 1).wrapping_add(pat as u32 * 7) as u8).collect()
+}
+
+fn warmup(p: &mut Pair) -> std::result::Result<(), ()> {
+    // A -> B small datagram: A solicits B (B learns A from the source link-layer address option)
+    let dst = p.dst_b;
+    {
+        let s = p.b.sockets.get_mut::<udp::Socket>(p.b.h_udp);
+        s.bind(9).unwrap();
+        let s = p.a.sockets.get_mut::<udp::Socket>(p.a.h_udp);
+        s.bind(9).unwrap();
+        s.send_slice(b"w", (IpAddress::Ipv6(dst), 9)).unwrap();
+    }
+    settle(p)?;
+    // B answers, so that B resolves the address A used as source
+    let src_a = {
+        let s = p.b.sockets.get_mut::<udp::Socket>(p.b.h_udp);
+        match s.recv() {
+            Ok((_, m)) => Some(m.endpoint),
+            Err(_) => None,
+        }
+    };
+    if let Some(ep) = src_a {
+        p.b.sockets.get_mut::<udp::Socket>(p.b.h_udp).send_slice(b"w", ep).unwrap();
+        settle(p)?;
+        let _ = p.a.sockets.get_mut::<udp::Socket>(p.a.h_udp).recv();
+    }
+    p.a.sockets.get_mut::<udp::Socket>(p.a.h_udp).close();
+    p.b.sockets.get_mut::<udp::Socket>(p.b.h_udp).close();
+    p.a.take_raw();
+    p.b.take_raw();
+    p.a.now += 10;
+    p.b.now += 10;
+    Ok(())
+}
+
+fn schedule(spec: &str, n: usize) -> Vec<usize> {
+    let mut v: Vec<usize> = (0..n).collect();
+    let t: Vec<&str> = spec.split(':').collect();
+    let k = |i: usize| t.get(i).and_then(|x| x.parse::<usize>().ok()).unwrap_or(0);
+    if n == 0 {
+        return v;
+    }
+    match t[0] {
+        "rev" => v.reverse(),
+        "rot" => v.rotate_left(k(1) % n),
+        "dup" => {
+            let j = k(1) % n;
+            v.insert((k(1) / 7) % (n + 1), j);
+        }
+        "drop" => {
+            v.remove(k(1) % n);
+        }
+        "swap" => v.swap(k(1) % n, k(2) % n),
+        _ => {}
+    }
+    v
+}
+
+#[derive(Debug)]
+enum Fk {
+    Plain,
+    First(u16, u16),
+    Next(u16, u16, u8),
+}
+
+/// reduce a transmitted frame: (mac header length, kind, 6LoWPAN payload behind the fragment header)
+fn reduce(f: &[u8]) -> Option<(usize, Fk, Vec<u8>)> {
+    let (maclen, pl) = split_frame(f)?;
+    match SixlowpanPacket::dispatch(&pl[..]) {
+        Ok(SixlowpanPacket::FragmentHeader) => {
+            let fp = SixlowpanFragPacket::new_checked(&pl[..]).ok()?;
+            match SixlowpanFragRepr::parse(&fp).ok()? {
+                SixlowpanFragRepr::FirstFragment { size, tag } => Some((maclen, Fk::First(size, tag), fp.payload().to_vec())),
+                SixlowpanFragRepr::Fragment { size, tag, offset } => Some((maclen, Fk::Next(size, tag, offset), fp.payload().to_vec())),
+            }
+        }
+        _ => Some((maclen, Fk::Plain, pl)),
+    }
+}
+
+/// split the frames one node sent into datagrams (a plain frame, or FRAG1 + its FRAGNs) and print them
+fn print_dgrams(out: &mut dyn Write, dir: &str, frames: &[Vec<u8>], tag0: &mut Option<u16>) -> Vec<Vec<usize>> {
+    let mut groups: Vec<Vec<usize>> = vec![];
+    for (i, f) in frames.iter().enumerate() {
+        match reduce(f) {
+            Some((_, Fk::Next(..), _)) if !groups.is_empty() => groups.last_mut().unwrap().push(i),
+            _ => groups.push(vec![i]),
+        }
+    }
+    for g in &groups {
+        writeln!(out, "dg {} n={}", dir, g.len()).unwrap();
+        for &i in g {
+            match reduce(&frames[i]) {
+                None => writeln!(out, "f ? {}", hex(&frames[i])).unwrap(),
+                Some((m, Fk::Plain, pl)) => writeln!(out, "f {} plain {}", m, hex(&pl)).unwrap(),
+                Some((m, Fk::First(size, tag), pl)) => {
+                    let t0 = *tag0.get_or_insert(tag);
+                    writeln!(out, "f {} first {} {} {}", m, size, tag.wrapping_sub(t0), hex(&pl)).unwrap()
+                }
+                Some((m, Fk::Next(size, tag, off), pl)) => {
+                    let t0 = *tag0.get_or_insert(tag);
+                    writeln!(out, "f {} next {} {} {} {}", m, size, tag.wrapping_sub(t0), off, hex(&pl)).unwrap()
+                }
+            }
+        }
+    }
+    if groups.is_empty() {
+        writeln!(out, "dg {} n=0", dir).unwrap();
+    }
+    groups
+}
+
+struct OpResult {
+    /// (direction, delivered datagram) in delivery order
+    delivered: Vec<(String, Vec<u8>)>,
+    /// frames per direction
+    frames: Vec<(String, Vec<u8>)>,
+    panicked: bool,
+}
+
+/// queue the op's datagram(s) at A's sockets; returns false if the op is not a sending op
+fn queue_op(p: &mut Pair, cfg: &E2eCfg, t: &[&str]) -> bool {
+    let dst = p.dst_b;
+    match t[0] {
+        "udp" | "burst" => {
+            let (sp, dp, hl) = (kvi(t, "sp") as u16, kvi(t, "dp") as u16, kvi(t, "hl") as u8);
+            let k = if t[0] == "burst" { kvi(t, "k") as usize } else { 1 };
+            {
+                let s = p.b.sockets.get_mut::<udp::Socket>(p.b.h_udp);
+                s.close();
+                s.bind(dp).unwrap();
+            }
+            let s = p.a.sockets.get_mut::<udp::Socket>(p.a.h_udp);
+            s.close();
+            s.bind(sp).unwrap();
+            s.set_hop_limit(Some(hl.max(1)));
+            for j in 0..k {
+                let pl = pattern((kvi(t, "pat") as u8).wrapping_add(j as u8), kvi(t, "len") as usize + j);
+                let _ = s.send_slice(&pl, (IpAddress::Ipv6(dst), dp));
+            }
+            true
+        }
+        "echo" => {
+            let data = pattern(kvi(t, "pat") as u8, kvi(t, "len") as usize);
+            let repr = Icmpv6Repr::EchoRequest { ident: cfg.ident, seq_no: kvi(t, "seq") as u16, data: &data };
+            let s = p.a.sockets.get_mut::<icmp::Socket>(p.a.h_icmp);
+            s.set_hop_limit(Some((kvi(t, "hl") as u8).max(1)));
+            if let Ok(buf) = s.send(repr.buffer_len(), IpAddress::Ipv6(dst)) {
+                repr.emit(&Ipv6Address::UNSPECIFIED, &dst, &mut Icmpv6Packet::new_unchecked(buf), &ChecksumCapabilities::ignored());
+            }
+            true
+        }
+        _ => false,
+    }
+}
+
+/// one op on a pair (either medium).  On Medium::Ip the "frames" are the IPv6 datagrams themselves.
+fn run_op(p: &mut Pair, cfg: &E2eCfg, op: &str, out: Option<&mut dyn Write>) -> OpResult {
+    let t: Vec<&str> = op.split_whitespace().collect();
+    let mut r = OpResult { delivered: vec![], frames: vec![], panicked: false };
+    let mut sink = std::io::sink();
+    let out: &mut dyn Write = match out {
+        Some(o) => o,
+        None => &mut sink,
+    };
+    if t[0] == "wait" {
+        p.a.now += kvi(&t, "ms");
+        p.b.now += kvi(&t, "ms");
+        let _ = p.a.poll();
+        let _ = p.b.poll();
+        return r;
+    }
+    if !queue_op(p, cfg, &t) {
+        panic!("unknown e2e op {}", op);
+    }
+    let is154 = p.a.dev.medium == Medium::Ieee802154;
+    // A -> B
+    let fa = match pump(&mut p.a) {
+        Ok(f) => f,
+        Err(()) => {
+            r.panicked = true;
+            return r;
+        }
+    };
+    for f in &fa {
+        r.frames.push(("ab".into(), f.clone()));
+    }
+    let groups = if is154 { print_dgrams(out, "ab", &fa, &mut p.tag0[0]) } else { (0..fa.len()).map(|i| vec![i]).collect() };
+    // deliver: the schedule applies to the frames of a single datagram; several datagrams go in order
+    let sched = if t[0] == "burst" { "io" } else { kv(&t, "sched") };
+    for g in &groups {
+        for j in schedule(sched, g.len()) {
+            p.b.dev.rx.push_back(fa[g[j]].clone());
+        }
+    }
+    let fb = match pump(&mut p.b) {
+        Ok(f) => f,
+        Err(()) => {
+            r.panicked = true;
+            return r;
+        }
+    };
+    let rx_b = p.b.take_raw();
+    if rx_b.is_empty() {
+        writeln!(out, "rx ab -").unwrap();
+    }
+    for d in rx_b {
+        writeln!(out, "rx ab {}", hex(&d)).unwrap();
+        r.delivered.push(("ab".into(), d));
+    }
+    // B -> A (echo reply / ICMP errors), always in order
+    if !fb.is_empty() {
+        for f in &fb {
+            r.frames.push(("ba".into(), f.clone()));
+        }
+        if is154 {
+            print_dgrams(out, "ba", &fb, &mut p.tag0[1]);
+        }
+        p.a.dev.rx.extend(fb);
+        match pump(&mut p.a) {
+            Ok(extra) => {
+                // anything A sends now (nothing expected) is delivered so that the state stays in step
+                p.b.dev.rx.extend(extra);
+                let _ = pump(&mut p.b);
+            }
+            Err(()) => {
+                r.panicked = true;
+                return r;
+            }
+        }
+        let rx_a = p.a.take_raw();
+        if rx_a.is_empty() {
+            writeln!(out, "rx ba -").unwrap();
+        }
+        for d in rx_a {
+            writeln!(out, "rx ba {}", hex(&d)).unwrap();
+            r.delivered.push(("ba".into(), d));
+        }
+    }
+    // drain socket buffers so that they never fill up
+    while p.b.sockets.get_mut::<udp::Socket>(p.b.h_udp).recv().is_ok() {}
+    while p.a.sockets.get_mut::<icmp::Socket>(p.a.h_icmp).recv().is_ok() {}
+    p.a.now += 1;
+    p.b.now += 1;
+    r
+}
+
+/// reference datagrams of an op: the same op between two Medium::Ip interfaces
+fn ref_op(pip: &mut Pair, cfg: &E2eCfg, op: &str) -> (Vec<Vec<u8>>, Vec<Vec<u8>>) {
+    let r = run_op(pip, cfg, op, None);
+    let ab = r.frames.iter().filter(|(d, _)| d == "ab").map(|(_, f)| f.clone()).collect();
+    let ba = r.frames.iter().filter(|(d, _)| d == "ba").map(|(_, f)| f.clone()).collect();
+    (ab, ba)
+}
+
+fn e2e_run_case(c: &Case, out: &mut dyn Write) {
+    writeln!(out, "case {}", c.id).unwrap();
+    let cfg = e2e_cfg(c);
+    let mut p = mk_pair(Medium::Ieee802154, &cfg);
+    if warmup(&mut p).is_err() {
+        writeln!(out, "PANIC warmup").unwrap();
+        return;
+    }
+    for op in &c.ops {
+        let r = run_op(&mut p, &cfg, op, Some(out));
+        if r.panicked {
+            writeln!(out, "PANIC").unwrap();
+            break;
+        }
+    }
+}
+
+fn gen_sched(rng: &mut Rng) -> String {
+    match rng.below(10) {
+        0..=3 => "io".into(),
+        4 => "rev".into(),
+        5 => format!("rot:{}", rng.below(16)),
+        6 => format!("dup:{}", rng.below(200)),
+        7 => format!("drop:{}", rng.below(16)),
+        _ => format!("swap:{}:{}", rng.below(16), rng.below(16)),
+    }
+}
+
+fn gen_len(rng: &mut Rng, tier: &str) -> usize {
+    let big = if tier == "thorough" { 1452 } else { 700 };
+    match rng.below(10) {
+        0 => 0,
+        1 => rng.range(1, 8) as usize,
+        2 | 3 => rng.range(50, 110) as usize, // around the single-frame limit
+        4 | 5 => rng.range(100, 330) as usize,
+        6 => *rng.pick(&[1452usize, 1453, 1460, 1472, 1280, 1232]),
+        _ => rng.range(0, big) as usize,
+    }
+}
+
+fn gen_e2e_case(rng: &mut Rng, id: String, tier: &str) -> Case {
+    let ext = |rng: &mut Rng| rng.chance(1, 2);
+    let (ea, eb) = (ext(rng), ext(rng));
+    let mk_ll = |rng: &mut Rng, e: bool, w: u8| {
+        if e {
+            let mut b = rng.bytes(8);
+            b[0] &= 0xfe; // unicast
+            b[7] = w;
+            let mut a = [0u8; 8];
+            a.copy_from_slice(&b);
+            Ieee802154Address::Extended(a)
+        } else {
+            let b = rng.bytes(1);
+            Ieee802154Address::Short([b[0] & 0x7f, w])
+        }
+    };
+    let (lla, llb) = (mk_ll(rng, ea, 1), mk_ll(rng, eb, 2));
+    // second addresses: none / same global prefix / arbitrary
+    let class = rng.below(4);
+    let mk_x = |rng: &mut Rng, class: u64, w: u8| -> Option<Ipv6Address> {
+        let r = rng.bytes(16);
+        let mut a = [0u8; 16];
+        match class {
+            0 => return None,
+            1 | 2 => {
+                a.copy_from_slice(&r);
+                a[..8].copy_from_slice(&[0x20, 0x01, 0x0d, 0xb8, 0, 0, 0, 1]);
+                if class == 2 {
+                    // interface identifier derived from nothing in particular but with zero runs
+                    a[8..14].copy_from_slice(&[0, 0, 0, 0xff, 0xfe, 0]);
+                }
+            }
+            _ => {
+                a.copy_from_slice(&r);
+                a[0] = 0x20 | (r[0] & 0x1f); // global unicast 2000::/3
+            }
+        }
+        a[15] = w;
+        Some(Ipv6Address::from_octets(a))
+    };
+    let (xa, xb) = (mk_x(rng, class, 1), mk_x(rng, class, 2));
+    let dst_x = class != 0 && rng.chance(2, 3);
+    let ident = rng.next() as u16;
+    let cfg = vec![
+        ("s".to_string(), "e2e".to_string()),
+        ("lla".into(), ll_show(&Some(lla))),
+        ("llb".into(), ll_show(&Some(llb))),
+        ("xa".into(), xa.map(|x| hex(&x.octets())).unwrap_or("-".into())),
+        ("xb".into(), xb.map(|x| hex(&x.octets())).unwrap_or("-".into())),
+        ("dst".into(), if dst_x { "x".into() } else { "ll".into() }),
+        ("ident".into(), ident.to_string()),
+        ("mtu".into(), if rng.chance(1, 2) { "127".into() } else { "125".into() }),
+    ];
+    let mut c = Case { id, cfg, ops: vec![] };
+    let ecfg = e2e_cfg(&c);
+    let mut pip = mk_pair(Medium::Ip, &ecfg);
+    let nops = rng.range(1, 4);
+    for _ in 0..nops {
+        let hl = match rng.below(5) {
+            0 => 1,
+            1 => 64,
+            2 => 255,
+            _ => rng.range(2, 254) as u8,
+        };
+        let mut op = match rng.below(10) {
+            0..=4 => format!("udp sp={} dp={} hl={} len={} pat={} sched={}", gen_port(rng).max(1), gen_port(rng).max(1), hl, gen_len(rng, tier), rng.next() as u8, gen_sched(rng)),
+            5 => format!("burst k={} sp={} dp={} hl={} len={} pat={}", rng.range(2, 3), gen_port(rng).max(1), gen_port(rng).max(1), hl, gen_len(rng, tier), rng.next() as u8),
+            _ => format!("echo seq={} hl={} len={} pat={} sched={}", rng.next() as u16, hl, gen_len(rng, tier).min(1400), rng.next() as u8, gen_sched(rng)),
+        };
+        let (ab, ba) = ref_op(&mut pip, &ecfg, &op);
+        let hx = |v: &Vec<Vec<u8>>| if v.is_empty() { "-".to_string() } else { v.iter().map(|d| hex(d)).collect::<Vec<_>>().join(",") };
+        op.push_str(&format!(" ref={} rref={}", hx(&ab), hx(&ba)));
+        c.ops.push(op);
+        if rng.chance(1, 12) {
+            c.ops.push(format!("wait ms={}", *rng.pick(&[1000i64, 59000, 61000])));
+            let w = c.ops.last().unwrap().clone();
+            let _ = run_op(&mut pip, &ecfg, &w, None);
+        }
+    }
+    c
+}
+
 fn main() {
     if std::env::var("LOUD").is_err() {
         quiet_panics();
@@ -741,6 +1240,28 @@ fn main() {
                 for op in &c.ops {
                     writeln!(out, "{}", wire_op(op)).unwrap();
                 }
+            }
+        }
+        "gen" => {
+            let mut rng = Rng::new(seed ^ 0xe2e);
+            for i in 0..n {
+                gen_e2e_case(&mut rng, format!("e{}-{}", seed, i), &_tier).write(&mut out);
+            }
+        }
+        "run" => {
+            for c in stdin_cases() {
+                e2e_run_case(&c, &mut out);
+            }
+        }
+        "mld-probe" => {
+            // join a multicast group on an 802.15.4 interface and poll: does the MLD report go out?
+            let ll = Ieee802154Address::Extended([2, 0, 0, 0, 0, 0, 0, 9]);
+            let mut n = mk_node(Medium::Ieee802154, Some(ll), &[ll_link_local(&ll)], None, 127, 3);
+            let r = n.iface.join_multicast_group(Ipv6Address::new(0xff02, 0, 0, 0, 0, 0, 1, 2));
+            writeln!(out, "join: {:?}", r.is_ok()).unwrap();
+            match pump(&mut n) {
+                Ok(f) => writeln!(out, "frames: {}", f.len()).unwrap(),
+                Err(()) => writeln!(out, "PANIC in poll after join_multicast_group").unwrap(),
             }
         }
         "inject-replay" => {
